@@ -188,3 +188,17 @@ U(id="C01.lzd.view", props=["C01", "C04", "C06", "C07", "C05", "C16"], file="lz/
   functions=[("src/lz/lz_decoder.rs", "repeat"), ("src/lz/lz_decoder.rs", "repeat_pending"), ("src/lz/lz_decoder.rs", "put_byte"), ("src/lz/lz_decoder.rs", "get_byte"),
              ("src/lz/lz_decoder.rs", "flush"), ("src/lz/lz_decoder.rs", "set_limit"), ("src/lz/lz_decoder.rs", "reset"), ("src/lz/lz_decoder.rs", "copy_uncompressed"), ("src/lz/lz_decoder.rs", "new", "LZDecoder")],
   contract="view = history H: repeat(d,l): Err and unchanged iff d>=|H|, else appends min(room,l) bytes each equal to the byte d+1 back (overlap replicates), rest pending; repeat_pending resumes to the same bytes; put/get/flush/set_limit/reset/copy_uncompressed on H; representation invariant preserved; no panic")
+
+NOOPT = "std,encoder,xz,lzip"   # std build without the `optimization` feature: portable Rust instead of inline asm / SIMD
+U(id="C01.rc.step", props=["C01", "C16"], file="enc/range_enc.rs", extra_files=["range_dec.rs"],
+  harnesses=["c01_rc_step_lockstep", "c01_rc_direct_lockstep", "c01_rc_shift_low_accounting"],
+  thorough_harnesses=["c16_rc_finish_count_1", "c16_rc_finish_count_3"],
+  functions=[("src/enc/range_enc.rs", "encode_bit"), ("src/range_dec.rs", "decode_bit"), ("src/range_dec.rs", "normalize"), ("src/enc/range_enc.rs", "encode_direct_bits"),
+             ("src/enc/range_enc.rs", "shift_low"), ("src/enc/range_enc.rs", "finish"), ("src/enc/range_enc.rs", "finish_buffer"), ("src/enc/range_enc.rs", "get_pending_size"), ("src/enc/range_enc.rs", "reset_buffer")],
+  assumptions=["C01.rc: only the per-step lockstep and byte accounting are proved; that a whole arithmetic-coded stream decodes (interval invariant through carry propagation) is not proved"],
+  contract="one modelled bit / one direct bit: encoder and decoder compute the same bound, bit, probability update and range; encoder renormalises exactly when the decoder will pull a byte; low advances by what the decoder subtracts from code; shift_low accounts one byte per call; finish emits cache_size+4 = get_pending_size bytes")
+U(id="C01.rc.dbits", props=["C01", "C14", "C06", "C15"], file="range_dec.rs", harnesses=["c06_rc_buffer_read_u8", "c01_rc_decode_direct_bits"], stubs=[],
+  kind="bounded", bound="count <= 4 direct bits from any decoder state (loop body uniform)",
+  functions=[("src/range_dec.rs", "decode_direct_bits"), ("src/range_dec.rs", "read_u8", "RangeReader for RangeDecoderBuffer"), ("src/range_dec.rs", "is_finished")],
+  assumptions=["inline-asm decode_direct_bits_x86_64/aarch64 are outside Kani and Verus: only the portable loop is verified (against the reference loop the source documents)"],
+  contract="portable decode_direct_bits = the documented reference loop for every state with code<range and count<=26 (result, range, code, bytes pulled); buffer reader: out-of-range reads give 0 and make is_finished false")
